@@ -61,7 +61,7 @@ def numba_matrix(run):
     if thorough:
         orders = [[h] + [x for x in HELPER_NAMES if x != h] for h in HELPER_NAMES] + [list(reversed(HELPER_NAMES))]
     run.bound = (f"{len(orders)} orders of first use x (fresh cache, same cache re-used by a second process" +
-                 (", cache off" if thorough else "") + f") x {len(HELPER_NAMES)} helper calls x 7 grouped frames (int, float+NaN, bool, date+NaT, timedelta+NaT, unsorted, empty)")
+                 (", cache off" if thorough else "") + f") x {len(HELPER_NAMES)} helper calls x 8 grouped frames (int, float+NaN, bool, date+NaT, timedelta+NaT, unsorted, interleaved ties + one-row group, empty)")
     inputs = run.inputs([(o,) for o in orders])
     for (order,) in inputs:
         d = tempfile.mkdtemp(prefix="nbcache")
